@@ -210,6 +210,11 @@ class VList(V):
     def length(self) -> Any:
         return z3.IntVal(len(self.items)) if self.items is not None else self.n
 
+    def become(self, other: "VList") -> None:
+        """In-place replacement of the contents (loop havoc): aliases of the list keep seeing it."""
+        self.items, self.n, self.get = other.items, other.n, other.get
+        self.kind, self.member = other.kind, other.member
+
     def at(self, j: Any) -> V:
         if self.items is not None:
             jc = z3.simplify(j) if not isinstance(j, int) else z3.IntVal(j)
